@@ -429,8 +429,9 @@ func c07next(r *verifhlib.Rng, cfg c07cfg, nkeys int, malformed bool, st *store)
 	if st.size <= cfg.cap {
 		free = cfg.cap - st.size
 	}
+	miss := false
 	pickKey := func(want func(k int) bool) int {
-		if !malformed && r.Chance(92) {
+		if !malformed && r.Chance(94) {
 			var c []int
 			for k := 0; k < nkeys; k++ {
 				if want(k) {
@@ -440,6 +441,7 @@ func c07next(r *verifhlib.Rng, cfg c07cfg, nkeys int, malformed bool, st *store)
 			if len(c) > 0 {
 				return c[r.Intn(len(c))]
 			}
+			miss = true
 		}
 		return r.Intn(nkeys)
 	}
@@ -504,8 +506,12 @@ func c07next(r *verifhlib.Rng, cfg c07cfg, nkeys int, malformed bool, st *store)
 		return v
 	}
 	any := func(k int) bool { return sh.exists[k] }
-	{
+	for try := 0; ; try++ {
+		miss = false
 		k := r.Intn(100)
+		if len(sh.exists) < 2 && r.Chance(50) {
+			k = 0
+		}
 		var o c07op
 		switch {
 		case k < 20:
@@ -558,7 +564,9 @@ func c07next(r *verifhlib.Rng, cfg c07cfg, nkeys int, malformed bool, st *store)
 				o.pct = []int{-1, 100, 101, -50}[r.Intn(4)]
 			}
 		}
-		return o
+		if !miss || try >= 6 {
+			return o
+		}
 	}
 }
 
